@@ -53,7 +53,7 @@ theorem inv_export {s : State} (h : Inv s) (p : Pk) (n : Nm) : Inv («export» s
       | some o => if o = p then s.v.exportOwn s.users p n else s.v
       | none => s.v.create s.users p n { exp := true, val := none })
     cases hc : s.v.cell p n with
-    | none => exact Tab.create_inv h.graph h.vars hc _
+    | none => exact Tab.create_inv h.graph h.vars (by rw [hc]; simp) _
     | some o =>
       by_cases ho : o = p
       · subst ho; simp only [if_true]; exact Tab.exportOwn_inv h.graph h.vars hc
@@ -89,7 +89,7 @@ theorem inv_setq {s : State} (h : Inv s) (n : Nm) (val : Option Nat) : Inv (setq
   | none =>
     dsimp only
     refine ⟨h.graph, ?_, h.funs, h.bodies⟩
-    exact Tab.create_inv h.graph h.vars hc { exp := false, val := val }
+    exact Tab.create_inv h.graph h.vars (by rw [hc]; simp) { exp := false, val := val }
   | some o =>
     dsimp only
     refine ⟨h.graph, ?_, h.funs, h.bodies⟩
@@ -119,12 +119,17 @@ theorem inv_defun {s : State} (h : Inv s) (n : Nm) (body : Nat) : Inv (defun s n
     dsimp only
     refine ⟨h.graph, ?_, ?_, ?_⟩
     rotate_left
-    · exact Tab.create_inv h.graph h.funs hc _
+    · exact Tab.create_inv h.graph h.funs (by rw [hc]; simp) _
     · exact Tab.create_bodies h.bodies _ _ _ _ rfl
     dsimp only
     split
     · exact Tab.remove_inv h.graph h.vars _ _
     · exact h.vars
+
+theorem inv_gdefine {s : State} (h : Inv s) (n : Nm) (body : Nat) (exp : Bool) :
+    Inv (gdefine s n body exp) :=
+  ⟨h.graph, h.vars, Tab.define_inv h.graph h.funs _ _ _,
+   Tab.define_bodies h.bodies _ _ _ _ _ rfl⟩
 
 theorem inv_defpackage {s : State} (h : Inv s) (p : Pk) (us : List Pk) (ex : List Nm) :
     Inv (defpackage s p us ex) := by
@@ -155,6 +160,7 @@ theorem inv_step {s : State} (h : Inv s) (op : Op) : Inv (step s op) := by
   | defun n b => exact inv_defun h n b
   | makunbound n => exact inv_makunbound h n
   | fmakunbound n => exact inv_fmakunbound h n
+  | gdefine n b e => exact inv_gdefine h n b e
 
 /-- **tables = closure of the graph after any history** -/
 theorem inv_run (ops : List Op) : Inv (run State.init ops) := by
@@ -351,6 +357,7 @@ theorem own_var_never_lost (s : State) (op : Op) {p : Pk} {n : Nm}
     · right; exact ⟨hc.1.symm, Or.inl (by rw [hc.2])⟩
     · left; exact Tab.remove_keeps _ _ _ _ hc hd
   | fmakunbound m => left; exact hd
+  | gdefine m b e => left; exact hd
 
 /-- an own function survives every operation except `fmakunbound` of that name by the package
     itself -/
@@ -389,6 +396,7 @@ theorem own_fun_never_lost (s : State) (op : Op) {p : Pk} {n : Nm}
     by_cases hc : p = s.cur ∧ n = m
     · right; exact ⟨hc.1.symm, by rw [hc.2]⟩
     · left; exact Tab.remove_keeps _ _ _ _ hc hd
+  | gdefine m b e => left; exact Tab.define_keeps _ _ _ _ _ hd
 
 example : ((run State.init sampleOps).v.defs 1 0).isSome = true ∧
     ((run State.init sampleOps).f.defs 0 1).isSome = true := ⟨by decide, by decide⟩
